@@ -573,118 +573,11 @@ def gen_bc(tier, rng):
 
 
 # ---------------------------------------------------------------------------------------------------------------
-# known findings of the unchanged tree (input classes decided from the request only)
+# known findings: none.  The defect classes found on the original tree (stack / compress negative axis, diagonal with a
+# negative or too large offset, split cut points beyond the extent, arange with a negative count or a negative integer
+# step and real dtype, linspace num=1 with endpoint) are repaired in /repo by `fix:` commits; their inputs stay in the
+# generators above as ordinary cases (tags idx-beyond, axis<0, ...).
 # ---------------------------------------------------------------------------------------------------------------
 
-def _args(case):
-    parts = case.req.split()
-    d = {'op': parts[0]}
-    for kv in parts[1:]:
-        k, v = kv.split('=', 1)
-        d[k] = v
-    return d
-
-
-def _ints(v):
-    return [] if v in ('[]', '') else [int(x) for x in v.split(',')]
-
-
-def _op(name, f):
-    def pred(case):
-        d = _args(case)
-        return d['op'] == name and f(d)
-    return pred
-
-
-def _diag_len(d):
-    """signed length of the requested diagonal: min(s1 + min(off,0), s2 - max(off,0)); < 0 = offset beyond the extent"""
-    s = _ints(d['shape'])
-    off = int(d['offset'])
-    s1, s2 = s[int(d['axis1']) % len(s)], s[int(d['axis2']) % len(s)]
-    return min(s1 + min(off, 0), s2 - max(off, 0))
-
-
-def _split_extent(d):
-    s = _ints(d['shape'])
-    return s[int(d['axis']) % len(s)]
-
-
-def _arange_step(d):
-    """(numerator of the step in quarter units, is_integer_step)"""
-    if 'stepq' in d:
-        return int(d['stepq']), False
-    return (4 if d['step'] == 'None' else 4 * int(d['step'])), True
-
-
-def _arange_negative_count(d):
-    if 'start' not in d or 'stop' not in d:
-        return False
-    q, _ = _arange_step(d)
-    # quotient (stop-start)/step <= -1: a quotient in (-1,0) truncates to 0 and gives the right (empty) length
-    dq = 4 * (int(d['stop']) - int(d['start']))
-    return dq * q < 0 and abs(dq) >= abs(q)
-
-
-def _arange_negstep_real(d):
-    if 'start' not in d or 'stop' not in d or d.get('dtype') not in ('float', 'double'):
-        return False
-    q, is_int = _arange_step(d)
-    if not is_int or q >= 0:
-        return False
-    # NumPy length ceil((stop-start)/step) >= 2, i.e. some element has index >= 1
-    return 4 * (int(d['start']) - int(d['stop'])) > -q
-
-
-KNOWN_PREDICATES_BC = {
-    # stack with a negative axis (np.stack accepts -(rank+1) <= axis <= rank)
-    'stack_negative_axis': _op('stack', lambda d: int(d['axis']) < 0),
-    # compress with a negative integer axis
-    'compress_negative_axis': _op('compress', lambda d: d['axis'] != 'None' and int(d['axis']) < 0),
-    # diagonal with a negative offset that still selects at least one element
-    'diagonal_negative_offset': _op('diagonal', lambda d: int(d['offset']) < 0 and _diag_len(d) > 0),
-    # diagonal whose offset lies strictly beyond the extent (NumPy: empty result)
-    'diagonal_offset_beyond_extent': _op('diagonal', lambda d: _diag_len(d) < 0),
-    # split at positions beyond the extent of the axis (NumPy: trailing empty sub-arrays)
-    'split_index_beyond_extent': _op('split', lambda d: 'indices' in d and any(i > _split_extent(d) for i in _ints(d['indices']))),
-    # arange whose (stop-start)/step is <= -1 (NumPy: empty result)
-    'arange_negative_count': _op('arange', _arange_negative_count),
-    # arange with a negative INTEGER step, a real element type and at least two elements
-    'arange_negative_int_step_real_dtype': _op('arange', _arange_negstep_real),
-    # linspace with num=1 and endpoint=true (NumPy: [start])
-    'linspace_num1_endpoint': _op('linspace', lambda d: int(d['num']) == 1 and int(d['endpoint']) == 1),
-}
-
-KNOWN_BC = [
-    {"property": "C04", "id": "stack.negative-axis", "call_site": "view::stack (array/view/stack.hpp:12-16) -> index::shape_concatenate / index::concatenate (array/index/concatenate.hpp:37,172 'TODO: allow negative axis')",
-     "class": "stack(a, b, axis) with axis < 0: expand_dims normalises the axis but the same raw negative axis is handed to concatenate, which compares it unnormalised with 0..dim-1; no axis matches, so the result keeps the expanded lhs shape (rhs dropped) instead of NumPy's stacked shape",
-     "predicate": "stack_negative_axis", "witness": "stack shape=1 shape2=1 axis=-1",
-     "impl": "ok shape=1,1 data=0", "spec": "ok shape=1,2 data=0,1000", "status": "open"},
-    {"property": "C04", "id": "compress.negative-axis", "call_site": "index::shape_compress / index::compress (array/index/compress.hpp:64,133)",
-     "class": "compress(condition, a, axis) with an integer axis < 0: the axis is compared unnormalised with 0..dim-1, nothing matches, the view is the identity on a (shape and elements of the source) instead of NumPy's selection",
-     "predicate": "compress_negative_axis", "witness": "compress shape=1 cond=0 axis=-1",
-     "impl": "ok shape=1 data=0", "spec": "ok shape=0 data=[]", "status": "open"},
-    {"property": "C04", "id": "diagonal.negative-offset", "call_site": "index::diagonal (array/view/diagonal.hpp:80-81)",
-     "class": "diagonal(a, offset, axis1, axis2) with offset < 0 and a non-empty diagonal: the source index is (i, i+offset) instead of (i-offset, i); i+offset is negative for i < -offset and wraps to 2^64-1 (out-of-bounds read; std::out_of_range with vector::at)",
-     "predicate": "diagonal_negative_offset", "witness": "diagonal shape=2,1 offset=-1 axis1=0 axis2=1",
-     "impl": "oob", "spec": "ok shape=1 data=1", "status": "open"},
-    {"property": "C04", "id": "diagonal.offset-beyond-extent", "call_site": "index::shape_diagonal (array/view/diagonal.hpp:43-50)",
-     "class": "diagonal(a, offset, axis1, axis2) with offset > extent(axis2) or -offset > extent(axis1): the diagonal length min(s1+min(offset,0), s2-max(offset,0)) is negative and is stored unclamped into a size_t extent (2^64-1 ...) instead of NumPy's 0",
-     "predicate": "diagonal_offset_beyond_extent", "witness": "diagonal shape=1,1 offset=2 axis1=0 axis2=1",
-     "impl": "ok shape=-1 data=huge", "spec": "ok shape=0 data=[]", "status": "open"},
-    {"property": "C04", "id": "split.index-beyond-extent", "call_site": "view::detail::split_args (array/view/split.hpp:73-99) -> view::slice (no clamping, cf. C05 slice finding)",
-     "class": "split(a, indices, axis) with an index > extent(axis): start/stop are passed unclamped to slice; NumPy documents an empty sub-array there, nmtools yields a part with non-zero extent whose elements are read out of bounds",
-     "predicate": "split_index_beyond_extent", "witness": "split shape=1 indices=2 axis=0 part=1",
-     "impl": "oob", "spec": "ok parts=2 shape=0 data=[]", "status": "open"},
-    {"property": "C04", "id": "arange.negative-count", "call_site": "index::arange_shape / index::ceil_ (array/index/arange.hpp:12-17,28)",
-     "class": "arange(start, stop, step) with (stop-start)/step <= -1 (NumPy: empty): the negative float quotient is converted to size_t in ceil_ (undefined behaviour); observed length 2^64-k under g++ -O1/-O0 (0 in some constant-folded contexts)",
-     "predicate": "arange_negative_count", "witness": "arange start=1 stop=0 step=1 dtype=int",
-     "impl": "ok shape=-1 data=huge", "spec": "ok shape=0 data=[]", "status": "open"},
-    {"property": "C04", "id": "arange.negative-int-step-real-dtype", "call_site": "view::arange_t::operator() (array/view/arange.hpp:71)",
-     "class": "arange(start, stop, step, dtype) with a negative integer step, a floating element type and >= 2 elements: `index * step` is evaluated in size_t (wraps to 2^64-|step|*index) before it is added to the float start; element i >= 1 is ~1.8e19",
-     "predicate": "arange_negative_int_step_real_dtype", "witness": "arange start=4 stop=2 step=-1 dtype=float",
-     "impl": "ok shape=2 data=4,1.8446744073709552e+19", "spec": "ok shape=2 data=4,3", "status": "open"},
-    {"property": "C04", "id": "linspace.num1-endpoint", "call_site": "index::linspace_step (array/view/linspace.hpp:19)",
-     "class": "linspace(start, stop, num=1, endpoint=true): step = (stop-start)/(num-1) divides by 0 (inf or nan), element 0 = start + 0*step = nan instead of start",
-     "predicate": "linspace_num1_endpoint", "witness": "linspace start=0 stop=1 num=1 endpoint=1 dtype=double",
-     "impl": "ok shape=1 data=nan", "spec": "ok shape=1 data=0", "status": "open"},
-]
+KNOWN_PREDICATES_BC = {}
+KNOWN_BC = []
